@@ -208,6 +208,10 @@ class Rejections(_Cfg):
         ('missing:num_nodes', 'ParameterError'), ('deprecated:dtype_u', 'ParameterError'), ('deprecated:dtype_f', 'ParameterError'),
         ('multilevel_without_space_transfer', 'ParameterError'),
         ('controller:predict_key', 'ControllerError'), ('controller:coarsest_nsweeps', 'ControllerError'),
+        # a deprecated key is rejected because it is PRESENT, whatever its value (the old interface wrote predict=False for "no predictor")
+        ('controller:predict_key=False', 'ControllerError'), ('controller:predict_key=None', 'ControllerError'), ('controller:predict_key=0', 'ControllerError'),
+        ('controller:predict_key=', 'ControllerError'), ('controller:predict_key=pfasst_burnin', 'ControllerError'),
+        ('deprecated:dtype_u=None', 'ParameterError'), ('deprecated:dtype_f=None', 'ParameterError'), ('deprecated:dtype_u=False', 'ParameterError'),
         ('controller:pfasst_without_right_node', 'ControllerError'),
         ('unknown:quad_type', 'any'), ('unknown:QI', 'any'), ('unknown:node_type', 'any'),
         ('frozen:unknown_level_param_is_accepted_as_attribute', 'none'),
@@ -234,11 +238,19 @@ class Rejections(_Cfg):
             else:
                 d.pop(k)
         elif f.startswith('deprecated:'):
-            d[f.split(':')[1]] = object
+            key = f.split(':')[1]
+            if '=' in key:
+                key, val = key.split('=')
+                d[key] = dict(**{'None': None, 'False': False})[val]
+            else:
+                d[key] = object
         elif f == 'multilevel_without_space_transfer':
             d.pop('space_transfer_class')
         elif f == 'controller:predict_key':
             cp['predict'] = True
+        elif f.startswith('controller:predict_key='):
+            val = f.split('=', 1)[1]
+            cp['predict'] = {'False': False, 'None': None, '0': 0, '': ''}.get(val, val)
         elif f == 'controller:coarsest_nsweeps':
             d['level_params']['nsweeps'] = [1, 2]
         elif f == 'controller:pfasst_without_right_node':
@@ -643,6 +655,31 @@ def bounded_frozen_objects_of_a_controller(tier, seed):
             objs[f'MS[{p}].levels[{l}].sweep.params'] = L.sweep.params
     objs['controller.params'] = c.params
     objs = {k: o for k, o in objs.items() if isinstance(o, FrozenClass)}
+    # ... and every other frozen object reachable from the controller (transfer parameters, convergence-controller parameters and status, problem
+    # parameters ...), for a controller built WITHOUT and one built WITH explicit transfer parameters
+    d2 = dict(d, base_transfer_params=dict(finter=True), space_transfer_params=dict(tag=1))
+    c2 = controller_nonMPI(num_procs=2, controller_params=dict(logger_level=40, dump_setup=False), description=d2)
+    for label, root in (('controller', c), ('controller_with_transfer_params', c2)):
+        seen, stack = set(), [(label, root, 0)]
+        while stack:
+            path, o, depth = stack.pop()
+            if id(o) in seen or depth > 7:
+                continue
+            seen.add(id(o))
+            if isinstance(o, FrozenClass) and not any(o is x for x in objs.values()):
+                objs[path] = o
+            if isinstance(o, (list, tuple)):
+                kids = [(f'{path}[{i}]', v) for i, v in enumerate(o[:6])]
+            elif isinstance(o, dict):
+                kids = [(f'{path}[{k!r}]', v) for k, v in list(o.items())[:12]]
+            elif hasattr(o, '__dict__') and type(o).__module__.startswith(('pySDC', 'contracts', 'vc')):
+                kids = [(f'{path}.{k}', v) for k, v in vars(o).items()]
+            else:
+                kids = []
+            for kp, v in kids:
+                if isinstance(v, (int, float, str, bool, type(None), np.ndarray, type)) or callable(v) and not hasattr(v, '__dict__'):
+                    continue
+                stack.append((kp, v, depth + 1))
     fails = dict(undeclared_name_rejected_with_TypeError=[], declared_name_still_assignable=[], rejected_assignment_leaves_no_attribute=[])
     cases = 0
     n_random = 40 if tier == 'quick' else 400
